@@ -87,6 +87,12 @@ func main() {
 				runVal(emit, f[2], f[3])
 			case "comp":
 				runComp(emit, f[2], f[3])
+			case "hook":
+				runHook(emit, f[3])
+			case "cfg":
+				runCfg(emit, f[3])
+			case "shut":
+				runShut(emit, f[2], f[3])
 			}
 		})
 		closeValWorlds()
@@ -138,6 +144,32 @@ func main() {
 			}
 			mode, h := genValScript(root.Fork(uint64(k)))
 			runVal(emit, mode, h)
+		})
+		closeValWorlds()
+	case "shut":
+		if n < 0 {
+			n = 12
+		}
+		parallel(out, n, 4, func(k int, emit func(string)) {
+			if a.Only >= 0 && k != a.Only {
+				return
+			}
+			c, sc := genShutCase(root.Fork(uint64(k)))
+			runShut(emit, c, sc)
+		})
+	case "hook", "cfg":
+		if n < 0 {
+			n = 400
+		}
+		parallel(out, n, 1, func(k int, emit func(string)) {
+			if a.Only >= 0 && k != a.Only {
+				return
+			}
+			if suite == "hook" {
+				runHook(emit, genHookScript(root.Fork(uint64(k))))
+			} else {
+				runCfg(emit, genCfgCase(root.Fork(uint64(k))))
+			}
 		})
 		closeValWorlds()
 	case "comp":
